@@ -36,8 +36,11 @@ Cfg0 == [bpdir |-> Unknown, desc |-> Unknown, exe |-> Unknown, argc |-> Unknown,
 
 \* exit: "0" | "100" | "err" (neither 0 nor 100, error handler ran once)
 \*       | "guard" (non-zero; the property leaves handler and code open)
+\* telemetry (only with libcnb's `trace` feature, extension X03): what the run appends to
+\* /tmp/libcnb-telemetry/<buildpack id>-<phase>.jsonl - "none": tracing was never initialised;
+\* "open": initialised, outcome not yet known; otherwise the one outcome event of the phase's span
 Out0 == [exit |-> "-", onerror |-> "0", userdetect |-> 0, userbuild |-> 0,
-         planwritten |-> FALSE, files |-> {}]
+         planwritten |-> FALSE, files |-> {}, telemetry |-> "none"]
 
 Init == pc = "Start" /\ cfg = Cfg0 /\ out = Out0
 
@@ -49,7 +52,8 @@ Guard(field, val) ==
 \* an error raised inside the detect/build phase: handler once, exit neither 0 nor 100
 Fail(field, val) ==
   /\ pc' = "Exit" /\ cfg' = [cfg EXCEPT ![field] = val]
-  /\ out' = [out EXCEPT !.exit = "err", !.onerror = "1"]
+  /\ out' = [out EXCEPT !.exit = "err", !.onerror = "1",
+                        !.telemetry = IF @ = "open" THEN "error" ELSE @]
 
 -----------------------------------------------------------------------------
 (* libcnb_runtime *)
@@ -80,8 +84,10 @@ BuildArgs ==
      \/ Go("BuildDesc", "argc", "3")
 
 \* full descriptor (ComponentBuildpackDescriptor<Metadata>)
+\* (init_tracing runs right after the descriptor was read)
 FullDesc(next) ==
-  IF cfg.desc = "restbad" THEN Fail("desc", "restbad") ELSE pc' = next /\ UNCHANGED <<cfg, out>>
+  IF cfg.desc = "restbad" THEN Fail("desc", "restbad")
+  ELSE pc' = next /\ out' = [out EXCEPT !.telemetry = "open"] /\ UNCHANGED cfg
 
 \* Platform::from_path: "ok" plain files; "rich" also directories, symlinks to files and
 \* directories, dangling links (all tolerated); "noenvdir" (tolerated); the others are errors
@@ -111,18 +117,18 @@ DetectUser ==
   /\ pc = "DetectUser"
   /\ \E b \in {"pass", "pass_plan", "fail", "error"} :
        /\ cfg' = [cfg EXCEPT !.detect = b]
-       /\ CASE b = "pass"  -> pc' = "Exit" /\ out' = [out EXCEPT !.userdetect = 1, !.exit = "0"]
-            [] b = "fail"  -> pc' = "Exit" /\ out' = [out EXCEPT !.userdetect = 1, !.exit = "100"]
+       /\ CASE b = "pass"  -> pc' = "Exit" /\ out' = [out EXCEPT !.userdetect = 1, !.exit = "0", !.telemetry = "passed"]
+            [] b = "fail"  -> pc' = "Exit" /\ out' = [out EXCEPT !.userdetect = 1, !.exit = "100", !.telemetry = "failed"]
             [] b = "error" -> pc' = "Exit" /\ out' = [out EXCEPT !.userdetect = 1, !.exit = "err",
-                                                                !.onerror = "1"]
+                                                                !.onerror = "1", !.telemetry = "error"]
             [] b = "pass_plan" -> pc' = "DetectWrite" /\ out' = [out EXCEPT !.userdetect = 1]
 
 DetectWrite ==
   /\ pc = "DetectWrite"
   /\ \/ /\ cfg' = [cfg EXCEPT !.planpath = "ok"] /\ pc' = "Exit"
-        /\ out' = [out EXCEPT !.exit = "0", !.planwritten = TRUE]
+        /\ out' = [out EXCEPT !.exit = "0", !.planwritten = TRUE, !.telemetry = "passed"]
      \/ /\ cfg' = [cfg EXCEPT !.planpath = "unwritable"] /\ pc' = "Exit"
-        /\ out' = [out EXCEPT !.exit = "err", !.onerror = "1"]
+        /\ out' = [out EXCEPT !.exit = "err", !.onerror = "1", !.telemetry = "error"]
 
 -----------------------------------------------------------------------------
 (* build phase (libcnb_runtime_build) *)
@@ -151,14 +157,14 @@ BuildUser ==
   /\ \E pre \in BOOLEAN :
      \/ \E e \in {"buildpack", "layer"} :
           /\ cfg' = [cfg EXCEPT !.berror = e, !.pre = Yes(pre)] /\ pc' = "Exit"
-          /\ out' = [out EXCEPT !.userbuild = 1, !.exit = "err", !.onerror = "1"]
+          /\ out' = [out EXCEPT !.userbuild = 1, !.exit = "err", !.onerror = "1", !.telemetry = "error"]
      \* a part of the result may be provided with content ("yes"), provided but empty
      \* ("empty": still provided, so still written) or not provided ("no")
      \/ \E la \in {"yes", "empty", "no"}, st \in {"yes", "empty", "no"}, bs \in SbomIds, ls \in SbomIds :
           /\ cfg' = [cfg EXCEPT !.berror = "none", !.launch = la, !.storeout = st,
                                 !.bsbom = bs, !.lsbom = ls, !.pre = Yes(pre)]
           /\ pc' = "Exit"
-          /\ out' = [out EXCEPT !.userbuild = 1, !.exit = "0",
+          /\ out' = [out EXCEPT !.userbuild = 1, !.exit = "0", !.telemetry = "success",
                        !.files = (IF la # "no" THEN {"launch.toml"} ELSE {})
                                  \cup (IF st # "no" THEN {"store.toml"} ELSE {})
                                  \cup SbomFiles("build", SbomSetOf(bs))
@@ -216,6 +222,14 @@ GuardsBeforeUserCode ==
       \/ (cfg.exe = "detect" /\ cfg.argc # "2") \/ (cfg.exe = "build" /\ cfg.argc # "3")
       \/ "unset" \in {cfg.t_os, cfg.t_arch, cfg.t_dname, cfg.t_dver})
      => (out.userdetect = 0 /\ out.userbuild = 0 /\ out.exit \notin {"0", "-"}))
+\* X03: the telemetry record agrees with the exit status, and exists exactly when the phase began
+TelemetryMatchesExit ==
+  AtExit =>
+    /\ out.telemetry # "open"
+    /\ (out.telemetry \in {"passed", "success"}) = (out.exit = "0")
+    /\ (out.telemetry = "failed") = (out.exit = "100")
+    /\ (out.telemetry = "error") => out.exit = "err"
+    /\ (out.telemetry = "none") => (out.userdetect = 0 /\ out.userbuild = 0 /\ out.exit \notin {"0", "100"})
 \* buildpack code of the other phase never runs
 RightPhase == AtExit => /\ (cfg.exe # "detect" => out.userdetect = 0)
                         /\ (cfg.exe # "build" => out.userbuild = 0)
